@@ -680,7 +680,7 @@ where
         let mut candidate = EntrySizeAndFrequency::new(policy_weight as u64);
         candidate.add_frequency(freq, hash);
 
-        match Self::admit(&candidate, cache, deqs, freq, &mut self.weigher) {
+        match Self::admit(&candidate, cache, deqs, freq) {
             AdmissionResult::Admitted {
                 victim_nodes,
                 victims_weight,
@@ -747,7 +747,6 @@ where
         cache: &CacheStore<K, V, S>,
         deqs: &Deques<K>,
         freq: &FrequencySketch,
-        weigher: &mut Option<Weigher<K, V>>,
     ) -> AdmissionResult<K> {
         let mut victims = EntrySizeAndFrequency::default();
         let mut victim_nodes = SmallVec::default();
@@ -767,7 +766,7 @@ where
                 let vic_entry = cache
                     .get(&vic_elem.key)
                     .expect("Cannot get an victim entry");
-                victims.add_policy_weight(vic_elem.key.as_ref(), &vic_entry.value, weigher);
+                victims.add_policy_weight(vic_entry.policy_weight());
                 victims.add_frequency(freq, vic_elem.hash);
                 victim_nodes.push(victim);
             } else {
@@ -1171,8 +1170,8 @@ impl EntrySizeAndFrequency {
         }
     }
 
-    fn add_policy_weight<K, V>(&mut self, key: &K, value: &V, weigher: &mut Option<Weigher<K, V>>) {
-        self.weight += weigh(weigher, key, value) as u64;
+    fn add_policy_weight(&mut self, weight: u32) {
+        self.weight += weight as u64;
     }
 
     fn add_frequency(&mut self, freq: &FrequencySketch, hash: u64) {
